@@ -228,6 +228,11 @@ def check(ctx):
                     exp_dims = [dimsym(ax, to) if d == dimsym(ax, fr) else d for d in exp_dims]
                 if v.attrs.get("dims") != tuple(exp_dims):
                     problems.append(f"R01.3: result dimensions {v.attrs.get('dims')} instead of the input's order with the axis dimension replaced {tuple(exp_dims)}")
+                # between the input and the returned array only the per-axis applications and re-orderings may happen:
+                # a cast, rounding, masking ... of the stencil's result changes the values the property fixes
+                extra = [e[0] for e in v.eff if e[0] not in ("copy", "UFUNC", "transpose")]
+                if v.name != "da" or extra:
+                    problems.append(f"the returned array is {v.name!r} after {[e[0] for e in v.eff]}: the stencil result is altered by {extra or 'another array'} before it is returned")
             else:
                 problems.append(f"returns {v!r}")
         return problems
@@ -534,6 +539,9 @@ def check_pad_basic(ctx, P, rule_id):
             pads = [e for e in o.value.eff if e[0] == "pad"]
             if o.value.name != "da":
                 bad = "does not pad the array it was given"
+            others = [e[0] for e in o.value.eff if e[0] not in ("pad", "copy", "transpose")]
+            if others:
+                bad = bad or f"besides padding, the array goes through {others}: the original values and the new cells must be exactly what xarray.pad produces"
             # what each dimension receives, whichever way the calls are grouped
             per_dim = {}
             for p in pads:
